@@ -161,62 +161,13 @@ func c13(r *core.Report) {
 
 	// ---- C13-CTX-EXTERNAL
 	r.Rule("C13-CTX-EXTERNAL", "blocking external calls on the Receive/ServeAsk/Ask paths receive the caller's context or are interruptible by a cancellation watcher", 6)
-	// discipline per external callee
-	const (
-		needCtxArg  = "ctxarg"  // has a context parameter: the argument must derive from the caller's
-		needWatcher = "watcher" // has no context parameter: the function must install a cancellation watcher derived from the caller's context
-	)
-	blocking := map[string]string{
-		"(*net.UDPConn).ReadFromUDP":                         needWatcher,
-		"net.Dial":                                           needWatcher,
-		"golang.org/x/crypto/ssh.NewClientConn":              needWatcher,
-		"(golang.org/x/crypto/ssh.Conn).SendRequest":         needWatcher,
-		"(*github.com/quic-go/quic-go.Transport).Dial":       needCtxArg,
-		"(github.com/quic-go/quic-go.Connection).OpenStreamSync": needCtxArg,
-		"io.ReadFull":                                        needWatcher,
-		"encoding/binary.Read":                               needWatcher,
-		"encoding/binary.Write":                              needWatcher,
-		"(net.Buffers).WriteTo":                              needWatcher,
-		"(*net.Buffers).WriteTo":                             needWatcher,
-		"(*golang.org/x/sync/errgroup.Group).Wait":           "join",
-	}
-	for _, root := range ctxMethods(p, "Receive", "ServeAsk", "Ask") {
-		for _, fn := range staticReach(p, root, 3) {
-			if fn != root && ctxParam(fn) == nil && fn.Parent() == nil {
-				// helper without a context of its own: its blocking calls are attributed to the root
-			}
-			for _, ci := range core.Calls(fn, func(ci ssa.CallInstruction) bool { _, ok := blocking[core.CalleeName(ci.Common())]; return ok }) {
-				name := core.CalleeName(ci.Common())
-				disc := blocking[name]
-				c := fmt.Sprintf("%s via %s call %s", core.FnName(root), core.FnName(fn), name)
-				pos := p.Pos(ci.Pos())
-				switch disc {
-				case needCtxArg:
-					ok := false
-					for _, a := range ci.Common().Args {
-						if core.IsContextType(a.Type()) && derivesFromCtx(a, fn) {
-							ok = true
-						}
-					}
-					r.Check(ok, "C13-CTX-EXTERNAL", c, pos, "receives a context derived from the caller's", "blocking call is given a context unrelated to the caller's")
-				case needWatcher:
-					if hasCancelWatcher(fn, root) {
-						r.OK("C13-CTX-EXTERNAL", c, pos, "a watcher derived from the caller's context interrupts the operation")
-					} else {
-						r.Violation("C13-CTX-EXTERNAL", c, pos, "blocking external call cannot be interrupted by cancelling the caller's context (no context argument, no cancellation watcher; a deadline copied from ctx.Deadline() covers deadlines only)")
-					}
-				case "join":
-					r.Trivial("C13-CTX-EXTERNAL", c, pos, "joins goroutines whose own blocking calls are checked separately")
-				}
-			}
-		}
-	}
+	ruleCtxExternal(r, "C13-CTX-EXTERNAL", ctxMethods(p, "Receive", "ServeAsk", "Ask"))
 
 	// ---- C13-COMMIT
 	r.Rule("C13-COMMIT", "Deliver: one blocking select; rendezvous send is followed on every path by the completion wait and a nil error; nil error on no other path", 8)
 	for _, d := range []struct {
-		name        string
-		rdv, done   *types.Var
+		name      string
+		rdv, done *types.Var
 	}{{"TellHub.Deliver", h.tellDelivers, h.drDone}, {"AskHub.Deliver", h.askReqs, h.srDone}} {
 		fn := h.fns[d.name]
 		var sels []*ssa.Select
@@ -505,4 +456,61 @@ func hasCancelWatcher(fn, root *ssa.Function) bool {
 		}
 	}
 	return false
+}
+
+// ruleCtxExternal: blocking dependency calls on the request paths of roots get
+// the caller's context or are interruptible by a cancellation watcher.
+func ruleCtxExternal(r *core.Report, ruleID string, roots []*ssa.Function) {
+	p := r.P
+	// discipline per external callee
+	const (
+		needCtxArg  = "ctxarg"  // has a context parameter: the argument must derive from the caller's
+		needWatcher = "watcher" // has no context parameter: the function must install a cancellation watcher derived from the caller's context
+	)
+	blocking := map[string]string{
+		"(*net.UDPConn).ReadFromUDP":                             needWatcher,
+		"net.Dial":                                               needWatcher,
+		"golang.org/x/crypto/ssh.NewClientConn":                  needWatcher,
+		"(golang.org/x/crypto/ssh.Conn).SendRequest":             needWatcher,
+		"(*github.com/quic-go/quic-go.Transport).Dial":           needCtxArg,
+		"(github.com/quic-go/quic-go.Connection).OpenStreamSync": needCtxArg,
+		"io.ReadFull":                              needWatcher,
+		"encoding/binary.Read":                     needWatcher,
+		"encoding/binary.Write":                    needWatcher,
+		"(net.Buffers).WriteTo":                    needWatcher,
+		"(*net.Buffers).WriteTo":                   needWatcher,
+		"(*golang.org/x/sync/errgroup.Group).Wait": "join",
+	}
+	for _, root := range roots {
+		for _, fn := range staticReach(p, root, 3) {
+			if fn != root && ctxParam(fn) == nil && fn.Parent() == nil {
+				// helper without a context of its own: its blocking calls are attributed to the root
+			}
+			for _, ci := range core.Calls(fn, func(ci ssa.CallInstruction) bool { _, ok := blocking[core.CalleeName(ci.Common())]; return ok }) {
+				name := core.CalleeName(ci.Common())
+				disc := blocking[name]
+				c := fmt.Sprintf("%s via %s call %s", core.FnName(root), core.FnName(fn), name)
+				pos := p.Pos(ci.Pos())
+				switch disc {
+				case needCtxArg:
+					ok := false
+					for _, a := range ci.Common().Args {
+						if core.IsContextType(a.Type()) && derivesFromCtx(a, fn) {
+							ok = true
+						}
+					}
+					r.Check(ok, ruleID, c, pos, "receives a context derived from the caller's", "blocking call is given a context unrelated to the caller's")
+				case needWatcher:
+					if hasCancelWatcher(fn, root) {
+						r.OK(ruleID, c, pos, "a watcher derived from the caller's context interrupts the operation")
+					} else {
+						r.Violation(ruleID, c, pos, "blocking external call cannot be interrupted by cancelling the caller's context (no context argument, no cancellation watcher; a deadline copied from ctx.Deadline() covers deadlines only)")
+					}
+				case "join":
+					r.Trivial(ruleID, c, pos, "joins goroutines whose own blocking calls are checked separately")
+				}
+			}
+		}
+	}
+
 }
